@@ -83,6 +83,9 @@ def _ndarray_to_bytes(arr):
   if arr.dtype.hasobject or arr.dtype.isalignedstruct:
     raise ValueError('Object and structured dtypes not supported '
                      'for serialization of ndarrays.')
+  if not arr.dtype.isnative:
+    # dtype.name does not record the byte order, so store native-order bytes.
+    arr = arr.astype(arr.dtype.newbyteorder('='))
   tpl = (arr.shape, arr.dtype.name, arr.tobytes('C'))
   return msgpack.packb(tpl, use_bin_type=True)
 
@@ -106,7 +109,7 @@ def _ndarray_from_bytes(data):
 def _bytes_ndarray_to_bytes(x):
   shape = x.shape
   flat = list(x.flatten())
-  if flat and not isinstance(flat[0], bytes):
+  if any(not isinstance(element, bytes) for element in flat):
     raise ValueError('Only ndarrays holding bytes objects can be serialized.')
   tpl = shape, flat
   return msgpack.packb(tpl, use_bin_type=True)
